@@ -1,74 +1,419 @@
 /* C19 — allocation failure gives a clean error or the correct result, nothing else (engine E2).
- * The engine's allocation fault fork makes, at every malloc/calloc/realloc/strdup executed while faults are enabled,
- * one extra path on which exactly that allocation returns NULL (one failure per path).
- * SCEN 1: schema build   SCEN 2: write a small 2-column nullable table   SCEN 3: open + column reads
- * SCEN 4: batch reader (I/O mode by OPENMODE: 0 buffer, 1 stdio, 2 mmap) */
-#include "pq_common.h"
+ * The engine's allocation fault fork makes, at every malloc/calloc/realloc/strdup executed while faults are enabled, one extra path
+ * on which exactly that allocation returns NULL: symx_fault_alloc(1) = one failure per path, symx_fault_alloc(2) = up to two
+ * (error paths of error paths).  Every scenario first runs FAULT-FREE and records what the API delivered; under faults every call
+ * either reports an error or delivers exactly what the fault-free run delivered; afterwards all handles are released and nothing
+ * may be left allocated.
+ * VQ_SCEN 1 schema builder (many columns: capacity growth, groups, logical types)
+ *         2 write of a table of c18_tables.h (careless caller: continues after a failure and closes; VQ_POLICY 1: careful caller
+ *           aborts at the first failure)          3 open + metadata / statistics / filter API + column readers (chunks, skip)
+ *         4 batch reader (batch size, projection by index / by name)
+ *         5 wide table (VQ_WCOLS columns x VQ_WRGS row groups: metadata outgrows the first arena block), faults only in a window
+ *           of the write history (VQ_WINDOW 1: carquet_writer_close, 2: last new_row_group + close)
+ *         6 wide table read: faults during open + metadata access + one column of the last row group */
+#include "c18_tables.h"
 
 #ifndef CODEC
 #define CODEC CARQUET_COMPRESSION_UNCOMPRESSED
 #endif
-#define ROWS 4
+#ifndef VQ_SPECS
+#define VQ_SPECS "is"
+#endif
+#ifndef VQ_ROWS
+#define VQ_ROWS 4
+#endif
+#ifndef VQ_NRG
+#define VQ_NRG 1
+#endif
+#ifndef VQ_BATCH
+#define VQ_BATCH 0
+#endif
+#ifndef VQ_FLAVOUR
+#define VQ_FLAVOUR 0
+#endif
+#ifndef VQ_FILEAPI
+#define VQ_FILEAPI 0
+#endif
+#ifndef VQ_OPEN
+#define VQ_OPEN 0
+#endif
+#ifndef VQ_FAULTS
+#define VQ_FAULTS 1
+#endif
+#ifndef VQ_POLICY
+#define VQ_POLICY 0
+#endif
+#ifndef VQ_CHUNK
+#define VQ_CHUNK PQ_MAXROWS          /* rows asked for per carquet_column_read_batch call */
+#endif
+#ifndef VQ_SKIP
+#define VQ_SKIP 0                    /* rows skipped with carquet_column_skip before reading */
+#endif
+#ifndef VQ_BS
+#define VQ_BS 3
+#endif
+#ifndef VQ_PROJ
+#define VQ_PROJ 0
+#endif
 #define PATH "/mem/t.parquet"
 #define REFPATH "/mem/ref.parquet"
+#define FILECAP 65536
+static uint8_t fa[FILECAP], fb[FILECAP];
+static pq_schema_t S; static pq_column_t C[PQ_MAXCOLS];
 
-static void table(pq_schema_t* s, pq_column_t* cols) {
-    memset(s, 0, sizeof *s); memset(cols, 0, sizeof(pq_column_t) * PQ_MAXCOLS);
-    s->ncols = 2;
-    s->name[0] = "a"; s->type[0] = CARQUET_PHYSICAL_INT32; s->rep[0] = CARQUET_REPETITION_OPTIONAL;
-    s->name[1] = "s"; s->type[1] = CARQUET_PHYSICAL_BYTE_ARRAY; s->rep[1] = CARQUET_REPETITION_REQUIRED;
-    int nv = 0;
-    for (int i = 0; i < ROWS; i++) { cols[0].def[i] = (i != 1); if (cols[0].def[i]) { int32_t v = 7 * i - 3; memcpy(cols[0].vals + 4 * nv, &v, 4); nv++; } }
-    for (int i = 0; i < ROWS; i++) {
-        cols[1].ba_bytes[2 * i] = 'k' + i; cols[1].ba_bytes[2 * i + 1] = '!';
-        cols[1].ba[i].data = cols[1].ba_bytes + 2 * i; cols[1].ba[i].length = (i + 1) % 3;
-    }
-    cols[0].nrows = cols[1].nrows = ROWS;
+static carquet_reader_t* open_file(size_t la, carquet_error_t* err) {
+    carquet_reader_options_t ro; carquet_reader_options_init(&ro);
+    ro.use_mmap = (VQ_OPEN == 2);
+    memset(err, 0, sizeof *err);
+#if VQ_OPEN == 0
+    return carquet_reader_open_buffer(fa, la, &ro, err);
+#else
+    (void)la;
+    return carquet_reader_open(PATH, &ro, err);
+#endif
 }
 
-static uint8_t fa[4096], fb[4096];
+/* ------------------------------------------------------------------ what one column reader delivered */
+typedef struct {
+    int opened;                      /* carquet_reader_get_column returned a reader */
+    int failed;                      /* some call reported an error (NULL reader, negative count, short skip) */
+    int skipped;                     /* rows skipped */
+    int nrows;                       /* rows delivered by calls that reported success */
+    int nvals;                       /* non-null values among them */
+    int16_t def[PQ_MAXROWS];
+    uint8_t vals[PQ_MAXROWS * 8];    /* fixed-width values, dense */
+    int32_t balen[PQ_MAXROWS]; uint8_t babytes[PQ_MAXROWS * 8]; int nbabytes;
+} colread_t;
 
-/* read both columns completely; returns 0 and fills outputs, or -1 on any error */
-static int read_all(carquet_reader_t* r, int32_t* a, int16_t* adef, int* an, int* slen, uint8_t* sbytes, int* sn) {
+static void read_column(carquet_reader_t* r, int g, int c, int chunk, int skip, colread_t* out) {
+    memset(out, 0, sizeof *out);
     carquet_error_t err; memset(&err, 0, sizeof err);
-    *an = 0; *sn = 0;
-    carquet_column_reader_t* c0 = carquet_reader_get_column(r, 0, 0, &err);
-    if (!c0) return -1;
-    int64_t n = carquet_column_read_batch(c0, a, ROWS, adef, NULL);
-    carquet_column_reader_free(c0);
-    if (n < 0) return -1;
-    *an = (int)n;
-    carquet_column_reader_t* c1 = carquet_reader_get_column(r, 0, 1, &err);
-    if (!c1) return -1;
-    carquet_byte_array_t ba[ROWS];
-    n = carquet_column_read_batch(c1, ba, ROWS, NULL, NULL);
-    if (n < 0) { carquet_column_reader_free(c1); return -1; }
-    for (int i = 0; i < n; i++) { slen[i] = ba[i].length; for (int j = 0; j < ba[i].length && j < 4; j++) sbytes[4 * i + j] = ba[i].data[j]; }
-    *sn = (int)n;
-    carquet_column_reader_free(c1);
-    return 0;
+    carquet_column_reader_t* col = carquet_reader_get_column(r, g, c, &err);
+    if (!col) { out->failed = 1; return; }
+    out->opened = 1;
+    int opt = S.rep[c] != CARQUET_REPETITION_REQUIRED;
+    size_t esz = pq_type_size(S.type[c], S.type_len[c]);
+    int64_t remaining = carquet_column_remaining(col);
+    if (skip > 0) {
+        int64_t want = skip < remaining ? skip : remaining;
+        int64_t sk = carquet_column_skip(col, skip);
+        out->skipped = (int)sk;
+        if (sk != want) { out->failed = 1; carquet_column_reader_free(col); return; }     /* a short count is how skip reports a failure */
+        remaining -= sk;
+    }
+    static _Alignas(16) uint8_t buf[PQ_MAXROWS * 16]; static int16_t dl[PQ_MAXROWS];
+    while (out->nrows < PQ_MAXROWS) {
+        int ask = chunk; if (out->nrows + ask > PQ_MAXROWS) ask = PQ_MAXROWS - out->nrows;
+        int64_t n = carquet_column_read_batch(col, buf, ask, opt ? dl : NULL, NULL);
+        if (n < 0) { out->failed = 1; break; }
+        if (n == 0) break;                                                                    /* "0 at end of column" */
+        if (n > ask) { out->failed = 2; break; }
+        int nn = 0;
+        for (int i = 0; i < n; i++) { int16_t d = opt ? dl[i] : 1; out->def[out->nrows + i] = d; if (d) nn++; }
+        if (S.type[c] == CARQUET_PHYSICAL_BYTE_ARRAY) {
+            const carquet_byte_array_t* ba = (const carquet_byte_array_t*)buf;
+            for (int i = 0; i < nn; i++) {
+                int len = ba[i].length;
+                out->balen[out->nvals + i] = len;
+                for (int j = 0; j < len && out->nbabytes < (int)sizeof out->babytes; j++) out->babytes[out->nbabytes++] = ba[i].data[j];
+            }
+        } else {
+            memcpy(out->vals + (size_t)out->nvals * esz, buf, (size_t)nn * esz);
+        }
+        out->nrows += (int)n; out->nvals += nn;
+    }
+    carquet_column_reader_free(col);
+}
+
+/* got (under faults) against ref (fault-free): every row delivered by a successful call is the fault-free row at that position;
+ * a reader that ended with "0 = end of column" or filled the request without reporting an error delivered ALL fault-free rows */
+static void compare_column(const colread_t* got, const colread_t* ref, int c) {
+    size_t esz = pq_type_size(S.type[c], S.type_len[c]);
+    SYMX_ASSERT(got->failed != 2, "carquet_column_read_batch returned more values than asked for");
+    if (!got->failed) SYMX_ASSERT(got->opened == ref->opened && got->skipped == ref->skipped && got->nrows == ref->nrows,
+                                  "a column read that reports no error delivers exactly the rows of the fault-free run");
+    else SYMX_ASSERT(symx_alloc_failed() != 0, "column readers fail only when an allocation failed");
+    SYMX_ASSERT(got->nrows <= ref->nrows && got->nvals <= ref->nvals, "no more rows than the fault-free run delivered");
+    SYMX_ASSERT(memcmp(got->def, ref->def, sizeof(int16_t) * (size_t)got->nrows) == 0, "rows delivered under an allocation failure have the fault-free definition levels");
+    if (S.type[c] == CARQUET_PHYSICAL_BYTE_ARRAY) {
+        SYMX_ASSERT(memcmp(got->balen, ref->balen, sizeof(int32_t) * (size_t)got->nvals) == 0, "byte-array values delivered under an allocation failure have the fault-free lengths");
+        SYMX_ASSERT(got->nbabytes <= ref->nbabytes && memcmp(got->babytes, ref->babytes, (size_t)got->nbabytes) == 0, "byte-array values delivered under an allocation failure have the fault-free bytes");
+    } else {
+        SYMX_ASSERT(memcmp(got->vals, ref->vals, esz * (size_t)got->nvals) == 0, "values delivered under an allocation failure are the fault-free values");
+    }
+}
+
+/* ------------------------------------------------------------------ metadata facts: one slot per API result, in call order */
+#define MAXFACTS 700
+typedef struct { int n; int64_t v[MAXFACTS]; uint8_t ok[MAXFACTS]; } facts_t;
+static void fact(facts_t* f, int ok, int64_t v) { if (f->n < MAXFACTS) { f->ok[f->n] = (uint8_t)ok; f->v[f->n] = ok ? v : 0; f->n++; } }
+static void fact_bytes(facts_t* f, int ok, const void* p, int len, int maxfacts) {
+    for (int k = 0; k < maxfacts; k++) {
+        int64_t w = 0;
+        if (ok && p) for (int j = 0; j < 8; j++) { int i = 8 * k + j; if (i < len) w |= (int64_t)((const uint8_t*)p)[i] << (8 * j); }
+        fact(f, ok && p != NULL, w);
+    }
+}
+static int cstr_len(const char* s, int cap) { int n = 0; while (n < cap && s[n]) n++; return n; }
+
+static void metadata_facts(carquet_reader_t* r, facts_t* f) {
+    f->n = 0;
+    int nrg = carquet_reader_num_row_groups(r), ncols = carquet_reader_num_columns(r);
+    fact(f, 1, carquet_reader_num_rows(r)); fact(f, 1, nrg); fact(f, 1, ncols);
+    (void)carquet_reader_is_mmap(r);         /* I/O strategy, not content: mmap may legitimately fall back to stdio when mapping fails */
+    const carquet_schema_t* sc = carquet_reader_schema(r);
+    fact(f, 1, sc != NULL);
+    if (!sc) return;
+    int ne = carquet_schema_num_elements(sc);
+    fact(f, 1, ne); fact(f, 1, carquet_schema_num_columns(sc));
+    for (int e = 0; e < ne && e < 1 + PQ_MAXCOLS; e++) {
+        const carquet_schema_node_t* nd = carquet_schema_get_element(sc, e);
+        fact(f, 1, nd != NULL);
+        if (!nd) continue;
+        const char* nm = carquet_schema_node_name(nd);
+        fact_bytes(f, 1, nm, nm ? cstr_len(nm, 16) : 0, 2);
+        int leaf = carquet_schema_node_is_leaf(nd);
+        fact(f, 1, leaf);
+        fact(f, 1, leaf ? (int64_t)carquet_schema_node_physical_type(nd) : -1);
+        fact(f, 1, e ? (int64_t)carquet_schema_node_repetition(nd) : -1);
+        fact(f, 1, carquet_schema_node_max_def_level(nd)); fact(f, 1, carquet_schema_node_max_rep_level(nd));
+        fact(f, 1, leaf ? carquet_schema_node_type_length(nd) : 0);
+        if (e > 0 && nm) fact(f, 1, carquet_schema_find_column(sc, nm));
+    }
+    fact(f, 1, carquet_schema_find_column(sc, "no such column"));
+    for (int g = 0; g < nrg && g < 4; g++) {
+        carquet_row_group_metadata_t md; memset(&md, 0, sizeof md);
+        int ok = carquet_reader_row_group_metadata(r, g, &md) == CARQUET_OK;
+        fact(f, ok, md.num_rows); fact(f, ok, md.total_byte_size); fact(f, ok, md.total_compressed_size);
+        for (int c = 0; c < ncols && c < PQ_MAXCOLS; c++) {
+            carquet_column_statistics_t st; memset(&st, 0, sizeof st);
+            ok = carquet_reader_column_statistics(r, g, c, &st) == CARQUET_OK;
+            fact(f, ok, st.has_min_max * 4 + st.has_null_count * 2 + st.has_distinct_count);
+            fact(f, ok, st.num_values); fact(f, ok && st.has_null_count, st.null_count);
+            fact(f, ok && st.has_min_max, st.min_value_size); fact(f, ok && st.has_min_max, st.max_value_size);
+            fact_bytes(f, ok && st.has_min_max, st.min_value, st.min_value_size, 1);
+            fact_bytes(f, ok && st.has_min_max, st.max_value, st.max_value_size, 1);
+            (void)carquet_reader_can_zero_copy(r, g, c);     /* I/O strategy (depends on whether the file is mapped): exercised, not compared */
+        }
+    }
+    /* predicate pushdown on column 0 (numeric columns): value in the middle of the table's range */
+    if (ncols > 0 && (S.type[0] == CARQUET_PHYSICAL_INT32 || S.type[0] == CARQUET_PHYSICAL_INT64)) {
+        int64_t probe = 0; int vsz = S.type[0] == CARQUET_PHYSICAL_INT32 ? 4 : 8;
+        memcpy(&probe, C[0].vals + (size_t)vsz * (size_t)(pq_present(&S, &C[0], 0, 0, VQ_ROWS) / 2), (size_t)vsz);
+        static const carquet_compare_op_t OPS[3] = {CARQUET_COMPARE_EQ, CARQUET_COMPARE_LT, CARQUET_COMPARE_GE};
+        for (int k = 0; k < 3; k++) {
+            int32_t idx[4] = {-1, -1, -1, -1};
+            int32_t n = carquet_reader_filter_row_groups(r, 0, OPS[k], &probe, vsz, idx, 4);
+            fact(f, n >= 0, n);
+            for (int j = 0; j < 4; j++) fact(f, n >= 0 && j < n, idx[j]);
+            for (int g = 0; g < nrg && g < 4; g++) {
+                bool m = false;
+                int ok = carquet_reader_row_group_matches(r, g, 0, OPS[k], &probe, vsz, &m) == CARQUET_OK;
+                fact(f, ok, m);
+            }
+        }
+    }
+    fact(f, carquet_reader_row_group_metadata(r, nrg, &(carquet_row_group_metadata_t){0}) != CARQUET_OK, 1);     /* out of range stays an error */
+}
+
+static void compare_facts(const facts_t* got, const facts_t* ref) {
+    SYMX_ASSERT(got->n == ref->n, "the same sequence of metadata calls in both runs");
+    int bad = 0, errs = 0;
+    for (int i = 0; i < got->n && i < ref->n; i++) {
+        if (got->ok[i]) bad |= (!ref->ok[i]) | (got->v[i] != ref->v[i]);
+        else errs |= ref->ok[i];
+    }
+    SYMX_ASSERT(!bad, "metadata / statistics / schema accessors of a reader opened under an allocation failure return the fault-free results");
+    SYMX_ASSERT(!errs || symx_alloc_failed() != 0, "accessors fail only when an allocation failed");
+}
+
+/* ------------------------------------------------------------------ batch reader */
+#define MAXBATCH 30
+/* what the batch reader delivered, per projected column as ONE stream over all batches (batch boundaries are not part of the
+ * result: a reader may legitimately cut batches differently, but the rows of all columns of a batch belong together) */
+typedef struct { int created; int n; int ended; int failed; int misaligned; int rows[PQ_MAXCOLS]; int nvals[PQ_MAXCOLS]; int nbytes[PQ_MAXCOLS];
+                 uint8_t isnull[PQ_MAXCOLS][PQ_MAXROWS]; uint8_t vals[PQ_MAXCOLS][PQ_MAXROWS * 8]; int32_t balen[PQ_MAXCOLS][PQ_MAXROWS]; } batches_t;
+static int proj_cols[PQ_MAXCOLS], proj_n; static const char* proj_names[PQ_MAXCOLS]; static int32_t proj_idx[PQ_MAXCOLS];
+
+static void run_batches(carquet_reader_t* r, batches_t* out) {
+    memset(out, 0, sizeof *out);
+    carquet_error_t err; memset(&err, 0, sizeof err);
+    carquet_batch_reader_config_t bc; carquet_batch_reader_config_init(&bc);
+    bc.batch_size = VQ_BS; bc.num_threads = 1;
+#if VQ_PROJ == 1
+    bc.column_indices = proj_idx; bc.num_columns = proj_n;
+#elif VQ_PROJ == 2
+    bc.column_names = proj_names; bc.num_column_names = proj_n;
+#endif
+    carquet_batch_reader_t* br = carquet_batch_reader_create(r, &bc, &err);
+    if (!br) { out->failed = 1; return; }
+    out->created = 1;
+    while (out->n < MAXBATCH) {
+        carquet_row_batch_t* b = NULL;
+        carquet_status_t st = carquet_batch_reader_next(br, &b);
+        if (st == CARQUET_ERROR_END_OF_DATA && !b) { out->ended = 1; break; }
+        if (st != CARQUET_OK) { out->failed = 1; if (b) carquet_row_batch_free(b); break; }
+        SYMX_ASSERT(b != NULL, "carquet_batch_reader_next returning OK delivers a batch");
+        int nrows = (int)carquet_row_batch_num_rows(b), ncols = carquet_row_batch_num_columns(b);
+        SYMX_ASSERT(nrows >= 0 && nrows <= VQ_BS, "row count of a batch within batch_size");
+        SYMX_ASSERT(ncols == proj_n, "a batch has the projected columns");
+        for (int k = 0; k < ncols && k < PQ_MAXCOLS; k++) {
+            const void* data = NULL; const uint8_t* nulls = NULL; int64_t nv = -1;
+            SYMX_ASSERT(carquet_row_batch_column(b, k, &data, &nulls, &nv) == CARQUET_OK, "projected column of a batch is accessible");
+            SYMX_ASSERT(nv >= 0 && nv <= VQ_BS, "column of a batch has no more values than batch_size");
+            if (nv != nrows) out->misaligned = 1;
+            if (out->rows[k] + nv > PQ_MAXROWS) { out->misaligned = 2; break; }
+            int c = proj_cols[k], nn = 0;
+            for (int i = 0; i < nv; i++) { int isnull = nulls ? (nulls[i / 8] >> (i % 8)) & 1 : 0; out->isnull[k][out->rows[k] + i] = (uint8_t)isnull; if (!isnull) nn++; }
+            if (nn > 0) SYMX_ASSERT(data != NULL, "a column with non-null rows has a data pointer");
+            if (S.type[c] == CARQUET_PHYSICAL_BYTE_ARRAY) {
+                const carquet_byte_array_t* ba = (const carquet_byte_array_t*)data;
+                for (int i = 0; i < nn; i++) { out->balen[k][out->nvals[k] + i] = ba[i].length; for (int j = 0; j < ba[i].length && out->nbytes[k] < PQ_MAXROWS * 8; j++) out->vals[k][out->nbytes[k]++] = ba[i].data[j]; }
+            } else if (nn > 0) {
+                size_t esz = pq_type_size(S.type[c], S.type_len[c]);
+                memcpy(out->vals[k] + esz * (size_t)out->nvals[k], data, esz * (size_t)nn); out->nbytes[k] += (int)(esz * (size_t)nn);
+            }
+            out->rows[k] += (int)nv; out->nvals[k] += nn;
+        }
+#ifdef VQ_DEBUG
+        printf("DBG batch %d rows %d:", out->n, nrows); for (int k = 0; k < ncols; k++) printf(" col%d total %d", k, out->rows[k]); printf(" misaligned %d\n", out->misaligned);
+#endif
+        carquet_row_batch_free(b);
+        out->n++;
+    }
+    carquet_batch_reader_free(br);
+}
+
+static void compare_batches(const batches_t* got, const batches_t* ref) {
+    if (got->failed) SYMX_ASSERT(symx_alloc_failed() != 0, "the batch reader fails only when an allocation failed");
+    SYMX_ASSERT(got->misaligned != 2, "the batch reader delivers no more rows than the file holds");
+    SYMX_ASSERT(!got->misaligned, "every column of a batch delivered with status OK has the rows of that batch [batch reader: columns aligned]");
+    for (int k = 0; k < proj_n; k++) {
+        if (!got->failed) SYMX_ASSERT(got->rows[k] == ref->rows[k] && got->ended == ref->ended, "a batch reader that reports no error delivers all rows of the fault-free run");
+        SYMX_ASSERT(got->rows[k] <= ref->rows[k], "no more rows than the fault-free run");
+        SYMX_ASSERT(memcmp(got->isnull[k], ref->isnull[k], (size_t)got->rows[k]) == 0, "rows delivered under an allocation failure have the fault-free null flags [batch reader: null flags]");
+        SYMX_ASSERT(got->nvals[k] <= ref->nvals[k] && got->nbytes[k] <= ref->nbytes[k], "no more values than the fault-free run");
+        SYMX_ASSERT(memcmp(got->balen[k], ref->balen[k], sizeof(int32_t) * (size_t)got->nvals[k]) == 0 && memcmp(got->vals[k], ref->vals[k], (size_t)got->nbytes[k]) == 0,
+                    "values delivered under an allocation failure are the fault-free values");
+    }
+}
+
+/* ------------------------------------------------------------------ careful caller: abort at the first failure */
+static int write_abort_on_error(const char* path, const int* rg, FILE** fp, const carquet_writer_options_t* wo) {
+    *fp = NULL;
+    carquet_error_t err; memset(&err, 0, sizeof err);
+    carquet_schema_t* sc = pq_make_schema(&S);
+    if (!sc) return -1;
+    carquet_writer_t* w = vt_create(path, VQ_FILEAPI, sc, wo, fp, &err);
+    if (!w) { carquet_schema_free(sc); return -1; }
+    static vt_op_t ops[VT_MAXOPS];
+    int nops = vt_history(&S, rg, VQ_NRG, VQ_BATCH, ops);
+    for (int k = 0; k < nops; k++) {
+        if (vt_apply(w, &S, C, &ops[k]) != CARQUET_OK) { carquet_writer_abort(w); carquet_schema_free(sc); return -2; }
+    }
+    carquet_status_t st = carquet_writer_close(w);
+    carquet_schema_free(sc);
+    return st == CARQUET_OK ? 0 : -3;
+}
+
+/* ------------------------------------------------------------------ wide tables (SCEN 5 / 6) */
+#ifndef VQ_WCOLS
+#define VQ_WCOLS 70
+#endif
+#ifndef VQ_WRGS
+#define VQ_WRGS 3
+#endif
+#ifndef VQ_NAMELEN
+#define VQ_NAMELEN 6
+#endif
+#ifndef VQ_WINDOW
+#define VQ_WINDOW 1
+#endif
+static char wnames[VQ_WCOLS][VQ_NAMELEN + 1];
+static void make_names(void) {
+    for (int i = 0; i < VQ_WCOLS; i++) {
+        for (int j = 0; j < VQ_NAMELEN; j++) wnames[i][j] = (char)('a' + (i + j) % 26);
+        wnames[i][0] = (char)('A' + i / 26); wnames[i][1] = (char)('a' + i % 26); wnames[i][VQ_NAMELEN] = 0;
+    }
+}
+static carquet_physical_type_t wtype(int i) { return (i % 3 == 1) ? CARQUET_PHYSICAL_INT64 : CARQUET_PHYSICAL_INT32; }
+static carquet_field_repetition_t wrep(int i) { return (i % 4 == 3) ? CARQUET_REPETITION_OPTIONAL : CARQUET_REPETITION_REQUIRED; }
+static int64_t wvalue(int g, int c) { return 1000 * g + c; }
+static carquet_schema_t* wide_schema(void) {
+    carquet_error_t err; memset(&err, 0, sizeof err);
+    carquet_schema_t* sc = carquet_schema_create(&err);
+    if (!sc) return NULL;
+    for (int c = 0; c < VQ_WCOLS; c++)
+        if (carquet_schema_add_column(sc, wnames[c], wtype(c), NULL, wrep(c), 0) != CARQUET_OK) { carquet_schema_free(sc); return NULL; }
+    return sc;
+}
+/* one row per row group; window 0: faults (if enabled by the caller) everywhere, 1: only in close, 2: in the last new_row_group + close */
+static int wide_write(const char* path, int window, int faults) {
+    carquet_error_t err; memset(&err, 0, sizeof err);
+    if (window == 0 && faults) symx_fault_alloc(faults);
+    carquet_schema_t* sc = wide_schema();
+    if (!sc) return -1;
+    carquet_writer_options_t wo; carquet_writer_options_init(&wo); wo.compression = CODEC;
+    carquet_writer_t* w = carquet_writer_create(path, sc, &wo, &err);
+    if (!w) { carquet_schema_free(sc); return -1; }
+    int bad = 0;
+    for (int g = 0; g < VQ_WRGS; g++) {
+        if (g > 0) {
+            if (window == 2 && faults && g == VQ_WRGS - 1) symx_fault_alloc(faults);
+            if (carquet_writer_new_row_group(w) != CARQUET_OK) bad = 1;
+            if (window == 2 && faults && g == VQ_WRGS - 1) symx_fault_alloc(0);
+        }
+        for (int c = 0; c < VQ_WCOLS; c++) {
+            int64_t v64 = wvalue(g, c); int32_t v32 = (int32_t)v64; int16_t d = 1;
+            if (carquet_writer_write_batch(w, c, wtype(c) == CARQUET_PHYSICAL_INT64 ? (const void*)&v64 : (const void*)&v32, 1,
+                                           wrep(c) == CARQUET_REPETITION_OPTIONAL ? &d : NULL, NULL) != CARQUET_OK) bad = 1;
+        }
+    }
+    if (window && faults) symx_fault_alloc(faults);
+    if (carquet_writer_close(w) != CARQUET_OK) bad = 1;
+    symx_fault_alloc(0);
+    carquet_schema_free(sc);
+    return bad ? -2 : 0;
 }
 
 void harness(void) {
-    pq_schema_t s; static pq_column_t cols[PQ_MAXCOLS];
-    table(&s, cols);
-    carquet_writer_options_t wo; carquet_writer_options_init(&wo);
-    wo.compression = CODEC;
-    int rg[1] = { ROWS };
-    pq_wstat_t ws;
-#if SCEN == 1
-    symx_fault_alloc(1);
+#if VQ_SCEN == 1
+    /* ---------------------------------------------------------------- schema builder */
+    make_names();
+    symx_fault_alloc(VQ_FAULTS);
     carquet_error_t err; memset(&err, 0, sizeof err);
     carquet_schema_t* sc = carquet_schema_create(&err);
     if (sc) {
         int ok = 1;
-        for (int c = 0; c < 3 && ok; c++) {
-            carquet_status_t st = carquet_schema_add_column(sc, c == 0 ? "x" : c == 1 ? "yy" : "zzz", CARQUET_PHYSICAL_INT64, NULL, CARQUET_REPETITION_OPTIONAL, 0);
+  #ifdef VQ_GROUPS
+        if (carquet_schema_add_group(sc, "grp_a", CARQUET_REPETITION_OPTIONAL, -1) < 0) ok = 0;
+        if (ok && carquet_schema_add_group(sc, "grp_b", CARQUET_REPETITION_REQUIRED, 0) < 0) ok = 0;
+        int base = 3;
+  #else
+        int base = 1;
+  #endif
+        carquet_logical_type_t lt; memset(&lt, 0, sizeof lt); lt.id = CARQUET_LOGICAL_STRING;
+        for (int c = 0; c < VQ_WCOLS && ok; c++) {
+            int str = (c % 5 == 2);
+            carquet_status_t st = carquet_schema_add_column(sc, wnames[c], str ? CARQUET_PHYSICAL_BYTE_ARRAY : wtype(c), str ? &lt : NULL, wrep(c), 0);
             if (st != CARQUET_OK) ok = 0;
         }
         if (ok) {
-            SYMX_ASSERT(carquet_schema_num_columns(sc) == 3, "a schema whose add_column calls all returned OK has all its columns");
-            SYMX_ASSERT(carquet_schema_find_column(sc, "yy") == 1, "lookup by name works after successful build");
+            /* every call reported success: the schema is the intended one */
+            SYMX_ASSERT(carquet_schema_num_columns(sc) == VQ_WCOLS, "a schema whose add_column calls all returned OK has all its columns");
+            SYMX_ASSERT(carquet_schema_num_elements(sc) == base + VQ_WCOLS, "... and all its elements");
+            for (int c = 0; c < VQ_WCOLS; c++) {
+                if (c < 3 || c > VQ_WCOLS - 3 || (c >= 61 && c <= 66)) SYMX_ASSERT(carquet_schema_find_column(sc, wnames[c]) == c, "lookup by name works after a build that reported success [schema builder: column name]");
+                const carquet_schema_node_t* nd = carquet_schema_get_element(sc, base + c);
+                SYMX_ASSERT(nd != NULL, "element of a successfully added column exists");
+                const char* nm = carquet_schema_node_name(nd);
+                SYMX_ASSERT(nm != NULL && strcmp(nm, wnames[c]) == 0, "element of a successfully added column has its name [schema builder: column name]");
+                int str = (c % 5 == 2);
+                SYMX_ASSERT(carquet_schema_node_is_leaf(nd) && carquet_schema_node_physical_type(nd) == (str ? CARQUET_PHYSICAL_BYTE_ARRAY : wtype(c)) &&
+                            carquet_schema_node_repetition(nd) == wrep(c), "element of a successfully added column has its type and repetition");
+                const carquet_logical_type_t* l2 = carquet_schema_node_logical_type(nd);
+                SYMX_ASSERT(!str || (l2 != NULL && l2->id == CARQUET_LOGICAL_STRING), "... and its logical type");
+            }
         }
         carquet_schema_free(sc);
     } else {
@@ -76,14 +421,87 @@ void harness(void) {
     }
     symx_fault_alloc(0);
     symx_check_leaks();
-#elif SCEN == 2
-    /* fault-free reference run first (writer output is deterministic), then the run with one failing allocation */
-    int rc0 = pq_write(REFPATH, &s, cols, rg, 1, 0, &wo, &ws);
-    symx_assume(rc0 == 0);
+#elif VQ_SCEN == 5
+    /* ---------------------------------------------------------------- wide write, faults in a window of the history */
+    make_names();
+    int rc0 = wide_write(REFPATH, 0, 0);
+    SYMX_ASSERT(rc0 == 0, "harness precondition: the fault-free wide write succeeds");
     size_t la = symx_file_get(REFPATH, fa, sizeof fa);
-    symx_fault_alloc(1);
-    int rc = pq_write(PATH, &s, cols, rg, 1, 0, &wo, &ws);
+    SYMX_ASSERT(la != (size_t)-1, "harness precondition: the written file exists");
+    int rc = wide_write(PATH, VQ_WINDOW, VQ_FAULTS);
+    if (rc == 0) {
+        size_t lb = symx_file_get(PATH, fb, sizeof fb);
+        SYMX_ASSERT(lb == la && memcmp(fa, fb, la) == 0, "write reported OK under an allocation failure but the file differs from the fault-free file");
+    } else {
+        SYMX_ASSERT(symx_alloc_failed() != 0, "a fault-free write succeeds");
+    }
+    symx_check_leaks();
+#elif VQ_SCEN == 6
+    /* ---------------------------------------------------------------- wide read */
+    make_names();
+    SYMX_ASSERT(wide_write(PATH, 0, 0) == 0, "harness precondition: the fault-free wide write succeeds");
+    size_t la = symx_file_get(PATH, fa, sizeof fa);
+    SYMX_ASSERT(la != (size_t)-1, "harness precondition: the written file exists");
+    symx_observe_int(la, "file length");
+    carquet_error_t err;
+    symx_fault_alloc(VQ_FAULTS);
+    carquet_reader_t* r = open_file(la, &err);
+    if (r) {
+        /* success: the reader shows the table that was written */
+        SYMX_ASSERT(carquet_reader_num_rows(r) == VQ_WRGS && carquet_reader_num_row_groups(r) == VQ_WRGS && carquet_reader_num_columns(r) == VQ_WCOLS,
+                    "a reader opened under an allocation failure reports the fault-free row / row group / column counts");
+        const carquet_schema_t* sc = carquet_reader_schema(r);
+        static const int probe[6] = {0, 1, VQ_WCOLS / 2, VQ_WCOLS - 3, VQ_WCOLS - 2, VQ_WCOLS - 1};
+        for (int k = 0; k < 6; k++) {
+            int c = probe[k];
+            SYMX_ASSERT(carquet_schema_find_column(sc, wnames[c]) == c, "a reader opened under an allocation failure finds every column by name");
+            for (int g = 0; g < VQ_WRGS; g += (VQ_WRGS > 1 ? VQ_WRGS - 1 : 1)) {
+                carquet_column_statistics_t st; memset(&st, 0, sizeof st);
+                if (carquet_reader_column_statistics(r, g, c, &st) == CARQUET_OK) SYMX_ASSERT(st.num_values == 1, "column statistics as in the fault-free run");
+                carquet_column_reader_t* col = carquet_reader_get_column(r, g, c, &err);
+                if (!col) { SYMX_ASSERT(symx_alloc_failed() != 0, "get_column fails only when an allocation failed"); continue; }
+                _Alignas(8) uint8_t v[8] = {0}; int16_t d = 0;
+                int64_t n = carquet_column_read_batch(col, v, 1, wrep(c) == CARQUET_REPETITION_OPTIONAL ? &d : NULL, NULL);
+                if (n < 0) SYMX_ASSERT(symx_alloc_failed() != 0, "read fails only when an allocation failed");
+                else {
+                    SYMX_ASSERT(n == 1, "the one row of the chunk is delivered");
+                    int64_t got = 0; if (wtype(c) == CARQUET_PHYSICAL_INT64) memcpy(&got, v, 8); else { int32_t t; memcpy(&t, v, 4); got = t; }
+                    SYMX_ASSERT(got == wvalue(g, c), "value read under an allocation failure is the fault-free value");
+                }
+                carquet_column_reader_free(col);
+            }
+        }
+        carquet_reader_close(r);
+    } else {
+        SYMX_ASSERT(symx_alloc_failed() != 0, "open fails only when an allocation failed");
+    }
     symx_fault_alloc(0);
+    symx_check_leaks();
+#else
+    /* ---------------------------------------------------------------- tables of c18_tables.h */
+    int nspecs = vt_spec_count(VQ_SPECS);
+    int si = nspecs > 1 ? symx_choice(nspecs, "table") : 0;
+    int nc = vt_table(&S, C, vt_spec_at(VQ_SPECS, si), VQ_ROWS, VQ_FLAVOUR);
+    SYMX_ASSERT(nc > 0, "harness: bad table spec");
+    carquet_writer_options_t wo; carquet_writer_options_init(&wo);
+    wo.compression = CODEC; wo.page_size = 1;
+    int rg[4]; vt_split(VQ_ROWS, VQ_NRG, rg);
+    pq_wstat_t ws; FILE* fp = NULL;
+  #if VQ_SCEN == 2
+    /* fault-free reference run first (the writer is deterministic), then the run under faults */
+    int rc0 = vt_write(REFPATH, VQ_FILEAPI, &S, C, rg, VQ_NRG, VQ_BATCH, &wo, &ws, &fp);
+    if (fp) fclose(fp);
+    SYMX_ASSERT(rc0 == 0, "harness precondition: the fault-free write succeeds");
+    size_t la = symx_file_get(REFPATH, fa, sizeof fa);
+    SYMX_ASSERT(la != (size_t)-1, "harness precondition: the written file exists");
+    symx_fault_alloc(VQ_FAULTS);
+    #if VQ_POLICY == 0
+    int rc = vt_write(PATH, VQ_FILEAPI, &S, C, rg, VQ_NRG, VQ_BATCH, &wo, &ws, &fp);
+    #else
+    int rc = write_abort_on_error(PATH, rg, &fp, &wo);
+    #endif
+    symx_fault_alloc(0);
+    if (fp) fclose(fp);
     if (rc == 0) {
         /* every call reported success: the effect must be exactly that of the fault-free run */
         size_t lb = symx_file_get(PATH, fb, sizeof fb);
@@ -91,63 +509,53 @@ void harness(void) {
         SYMX_ASSERT(lb != la || memcmp(fa, fb, la) == 0, "write reported OK under an allocation failure but the file content differs from the fault-free file");
     } else {
         SYMX_ASSERT(symx_alloc_failed() != 0, "a fault-free write succeeds");
+    #if VQ_POLICY == 1 && !VQ_FILEAPI
+        if (rc == -2) SYMX_ASSERT(symx_file_size(PATH) == (size_t)-1, "abort after a failed call leaves no file behind");
+    #endif
     }
     symx_check_leaks();
-#else
-    int rc0 = pq_write(PATH, &s, cols, rg, 1, 0, &wo, &ws);
-    symx_assume(rc0 == 0);
-    size_t la = symx_file_get(PATH, fa, sizeof fa);
-    symx_assume(la != (size_t)-1);
-    carquet_reader_options_t ro; carquet_reader_options_init(&ro);
-    ro.use_mmap = (OPENMODE == 2);
-    carquet_error_t err; memset(&err, 0, sizeof err);
-    /* fault-free expected content */
-    int32_t ea[ROWS]; int16_t edef[ROWS]; int ean, esn; int eslen[ROWS]; uint8_t esb[4 * ROWS];
-    memset(ea, 0, sizeof ea); memset(edef, 0, sizeof edef); memset(eslen, 0, sizeof eslen); memset(esb, 0, sizeof esb);
-    carquet_reader_t* r0 = carquet_reader_open_buffer(fa, la, &ro, &err);
-    symx_assume(r0 != NULL);
-    symx_assume(read_all(r0, ea, edef, &ean, eslen, esb, &esn) == 0);
-    carquet_reader_close(r0);
-    symx_fault_alloc(1);
-    memset(&err, 0, sizeof err);
-  #if OPENMODE == 0
-    carquet_reader_t* r = carquet_reader_open_buffer(fa, la, &ro, &err);
   #else
-    carquet_reader_t* r = carquet_reader_open(PATH, &ro, &err);
-  #endif
-    if (r) {
-    #if SCEN == 3
-        int32_t a[ROWS]; int16_t adef[ROWS]; int an, sn; int slen[ROWS]; uint8_t sb[4 * ROWS];
-        memset(a, 0, sizeof a); memset(adef, 0, sizeof adef); memset(slen, 0, sizeof slen); memset(sb, 0, sizeof sb);
-        if (read_all(r, a, adef, &an, slen, sb, &sn) == 0) {
-            SYMX_ASSERT(an == ean && sn == esn, "reads that report success under an allocation failure return the fault-free row counts");
-            SYMX_ASSERT(memcmp(adef, edef, sizeof adef) == 0, "same definition levels as the fault-free run");
-            int nn = 0; for (int i = 0; i < ROWS; i++) if (edef[i]) nn++;
-            SYMX_ASSERT(memcmp(a, ea, 4 * nn) == 0, "same values as the fault-free run");
-            SYMX_ASSERT(memcmp(slen, eslen, sizeof slen) == 0 && memcmp(sb, esb, sizeof sb) == 0, "same byte-array values as the fault-free run");
-        }
+    int rc0 = vt_write(PATH, 0, &S, C, rg, VQ_NRG, VQ_BATCH, &wo, &ws, &fp);
+    SYMX_ASSERT(rc0 == 0, "harness precondition: the fault-free write succeeds");
+    size_t la = symx_file_get(PATH, fa, sizeof fa);
+    SYMX_ASSERT(la != (size_t)-1, "harness precondition: the written file exists");
+    carquet_error_t err;
+    /* projection (scenario 4) */
+    proj_n = 0;
+    #if VQ_PROJ == 0
+    for (int c = 0; c < nc; c++) proj_cols[proj_n++] = c;
     #else
-        carquet_batch_reader_config_t bc; carquet_batch_reader_config_init(&bc);
-        bc.batch_size = 3;
-        carquet_batch_reader_t* br = carquet_batch_reader_create(r, &bc, &err);
-        if (br) {
-            int total = 0;
-            for (int it = 0; it < 4; it++) {
-                carquet_row_batch_t* b = NULL;
-                carquet_status_t st = carquet_batch_reader_next(br, &b);
-                if (st != CARQUET_OK || !b) break;
-                const void* data; const uint8_t* nulls; int64_t nv;
-                if (carquet_row_batch_column(b, 0, &data, &nulls, &nv) == CARQUET_OK) {
-                    SYMX_ASSERT(nv >= 0 && nv <= 3, "batch size respected");
-                    int64_t rows = carquet_row_batch_num_rows(b);
-                    SYMX_ASSERT(rows >= 0 && rows <= 3, "row count of a batch within batch_size");
-                    total += (int)rows;
-                }
-                carquet_row_batch_free(b);
-            }
-            SYMX_ASSERT(total <= ROWS, "never more rows than the file holds");
-            carquet_batch_reader_free(br);
-        }
+    proj_cols[proj_n++] = nc - 1; if (nc > 1) proj_cols[proj_n++] = 0;             /* last column first, then the first one */
+    #endif
+    for (int k = 0; k < proj_n; k++) { proj_idx[k] = proj_cols[k]; proj_names[k] = S.name[proj_cols[k]]; }
+    /* fault-free run */
+    static facts_t F0, F1; static colread_t R0[4][PQ_MAXCOLS], R1; static batches_t B0, B1;
+    carquet_reader_t* r0 = open_file(la, &err);
+    SYMX_ASSERT(r0 != NULL, "harness precondition: the file opens");
+    #if VQ_SCEN == 3
+    metadata_facts(r0, &F0);
+    for (int g = 0; g < VQ_NRG; g++) for (int c = 0; c < nc; c++) read_column(r0, g, c, VQ_CHUNK, VQ_SKIP, &R0[g][c]);
+    int tot = 0; for (int g = 0; g < VQ_NRG; g++) tot += R0[g][0].nrows + R0[g][0].skipped;
+    SYMX_ASSERT(tot == VQ_ROWS, "harness precondition: the fault-free run reads all rows");
+    symx_observe_int((uint64_t)F0.n, "metadata facts");
+    #else
+    run_batches(r0, &B0);
+    SYMX_ASSERT(B0.created && !B0.failed && B0.ended, "harness precondition: the fault-free batch run reaches the end of the data");
+    symx_observe_int((uint64_t)B0.n, "fault-free batches");
+    SYMX_ASSERT(!B0.misaligned && B0.rows[0] == VQ_ROWS, "harness precondition: the fault-free batch run delivers all rows, columns aligned");
+    #endif
+    carquet_reader_close(r0);
+    /* run under faults */
+    symx_fault_alloc(VQ_FAULTS);
+    carquet_reader_t* r = open_file(la, &err);
+    if (r) {
+    #if VQ_SCEN == 3
+        metadata_facts(r, &F1);
+        compare_facts(&F1, &F0);
+        for (int g = 0; g < VQ_NRG; g++) for (int c = 0; c < nc; c++) { read_column(r, g, c, VQ_CHUNK, VQ_SKIP, &R1); compare_column(&R1, &R0[g][c], c); }
+    #else
+        run_batches(r, &B1);
+        compare_batches(&B1, &B0);
     #endif
         carquet_reader_close(r);
     } else {
@@ -155,5 +563,6 @@ void harness(void) {
     }
     symx_fault_alloc(0);
     symx_check_leaks();
+  #endif
 #endif
 }
